@@ -47,6 +47,7 @@ impl ScriptCase {
             allow_buffer: self.allow_buffer,
             prior_calls: 0,
             build_style: 0,
+            bufsize: None,
         }
     }
     pub fn names(&self) -> Vec<&'static str> {
